@@ -159,6 +159,7 @@ type Frame struct {
 	iterMap  map[ssa.Value]Val // range iterators -> map value
 	out      func(Outcome)
 	joins    []*joinPoint
+	heapNames map[string]*Loc
 	allocs   map[*ssa.Alloc]*Cell
 }
 
